@@ -1,4 +1,5 @@
 import MageModel.Parse.Pkg
+import MageModel.Gen.Dispatch
 /-!
 # C07 — ambiguous target names are rejected, never silently resolved
 All packages: any functions, namespaces, imports and aliases.
@@ -109,6 +110,78 @@ theorem no_false_reject (own : List Function) (imports : List Import) (aliases :
   cases hc : checkDupes own imports aliases with
   | ok u => rfl
   | error e => exact absurd ((checkDupes_rejects_iff own imports aliases).mp ⟨e, hc⟩) h
+
+/-! ### what acceptance buys: the generated dispatcher is unambiguous -/
+section
+open MageModel.Gen
+theorem find?_first {α} (l : List α) (p : α → Bool) (i : Nat) (hi : i < l.length) (hp : p l[i] = true)
+    (hfirst : ∀ j (hj : j < i), p (l[j]'(by omega)) = false) : l.find? p = some l[i] := by
+  induction l generalizing i with
+  | nil => cases hi
+  | cons a rest ih =>
+    cases i with
+    | zero => simp at hp; simp [List.find?, hp]
+    | succ i =>
+      have h0 := hfirst 0 (by omega)
+      simp at h0
+      simp only [List.find?, h0]
+      simp only [List.getElem_cons_succ] at hp ⊢
+      apply ih i (by simpa using hi) hp
+      intro j hj
+      have := hfirst (j+1) (by omega)
+      simpa using this
+
+/-- **An accepted build dispatches unambiguously**: when the duplicate check passes, every target — own, namespaced,
+imported — is reached by its own command-line name (in any letter case), not shadowed by an alias or by another
+target.  (Together with `checkDupes_rejects_iff`: ambiguity is rejected, everything else runs what it names.) -/
+theorem accepted_dispatch_unambiguous (info : PkgInfo) (h : checkDupes info.funcs info.imports info.aliases = .ok ())
+    (i : Nat) (hi : i < (allTargets info).length) (w : String) (hw : lower w = lower ((allTargets info)[i]).targetName) :
+    resolve info w = some (allTargets info)[i] := by
+  have hnc : ¬ Collides (runnableNames info.funcs info.imports info.aliases) := by
+    intro hc
+    obtain ⟨e, he⟩ := (checkDupes_rejects_iff _ _ _).mpr hc
+    rw [h] at he; cases he
+  have hall : allTargets info = info.funcs ++ info.imports.flatMap (·.funcs) := rfl
+  let names := (allTargets info).map fun f => lower f.targetName
+  let keys := (info.aliases.map fun a => lower a.1).reverse
+  have hrn : runnableNames info.funcs info.imports info.aliases = keys ++ names := by
+    simp [runnableNames, keys, names, hall]
+  have hni : names[i]? = some (lower ((allTargets info)[i]).targetName) := by
+    simp [names, hi]
+  -- (1) no alias matches
+  have hal : info.aliases.find? (fun x => lower x.1 == lower w) = none := by
+    rw [List.find?_eq_none]
+    intro a ha hq
+    have hq' : lower a.1 = lower w := by simpa using hq
+    have hk : lower a.1 ∈ keys := by
+      simp only [keys, List.mem_reverse, List.mem_map]
+      exact ⟨a, ha, rfl⟩
+    obtain ⟨p, hp, hpk⟩ := List.mem_iff_getElem.mp hk
+    apply hnc
+    rw [hrn]
+    refine ⟨p, keys.length + i, by omega, by simp [names]; omega, ?_⟩
+    rw [List.getElem?_append_left hp, List.getElem?_append_right (by omega)]
+    simp only [Nat.add_sub_cancel_left, hni, List.getElem?_eq_getElem hp, hpk, hq', hw]
+  unfold resolve
+  rw [hal]
+  simp only []
+  -- (2) the first target with that lower-cased name is the i-th
+  apply find?_first (allTargets info) _ i hi
+  · simp [hw]
+  · intro j hj
+    have hjl : j < (allTargets info).length := by omega
+    by_cases heq : lower ((allTargets info)[j]).targetName = lower w
+    · exfalso
+      apply hnc
+      rw [hrn]
+      refine ⟨keys.length + j, keys.length + i, by omega, by simp [names]; omega, ?_⟩
+      rw [List.getElem?_append_right (by omega), List.getElem?_append_right (by omega)]
+      simp only [Nat.add_sub_cancel_left, hni]
+      have : names[j]? = some (lower ((allTargets info)[j]).targetName) := by simp [names, hjl]
+      rw [this, heq, hw]
+    · simp [heq]
+
+end
 
 /-! ### the pinned tree (D8): the alias check ran before the aliases were collected -/
 namespace Pinned
